@@ -1,14 +1,10 @@
-import TracklibVerif.Model.Features
+import TracklibVerif.Lemmas.FeaturesSim
+/-! Data lemmas about enumerations (`zipIdx`), the index remap of `removeAnalyticalFeature`, columns
+(`colAt`) under the row edits of the primitives, and the simulation lemma of every primitive. -/
+set_option linter.unusedSectionVars false
+set_option linter.unusedSimpArgs false
 namespace TV.Features
-variable {V : Type}
-
-def names (st : St V) : List String := st.dico.map Prod.fst
-
-/-- the table is aligned: the dict is the enumeration of its names, names are distinct, every row has one value per name -/
-structure Inv (st : St V) : Prop where
-  enum : st.dico = (names st).zipIdx 0
-  nodup : (names st).Nodup
-  rows : ∀ r ∈ st.rows, r.length = st.dico.length
+variable {V : Type} [Inhabited V]
 
 /-- lookup in an enumeration -/
 theorem find_zipIdx (ns : List String) (off : Nat) (n : String) (i : Nat)
@@ -91,10 +87,6 @@ theorem remap_zipIdx (ns : List String) (hnd : ns.Nodup) (off : Nat) (name : Str
       simp only [this, if_false]
       rw [List.erase_cons_tail (by simpa using hne)]
       simp [List.zipIdx_cons]
-end TV.Features
-
-namespace TV.Features
-variable {V : Type}
 
 theorem find_remap (d : List (String × Nat)) (name n : String) (hne : n ≠ name) (g : Nat → Nat) :
     find ((d.filter (fun p => !(p.1 == name))).map (fun p => (p.1, g p.2))) n = (find d n).map g := by
@@ -118,77 +110,604 @@ theorem find_remap (d : List (String × Nat)) (name n : String) (hne : n ≠ nam
         simp only [List.find?_cons, hn]
         exact ih'
 
-theorem names_remove (st st' : St V) (name : String) (hinv : Inv st) (h : remove st name = .ok st') :
-    st'.dico = ((names st).erase name).zipIdx 0 ∧ ∃ idx, find st.dico name = some idx ∧
-      st'.rows = st.rows.map (·.eraseIdx idx) ∧ idx < st.dico.length ∧ name ∈ names st := by
-  unfold remove at h
-  cases hf : find st.dico name with
-  | none => rw [hf] at h; cases h
-  | some idx =>
-    rw [hf] at h
-    simp only [Except.ok.injEq] at h
-    have hf' : find ((names st).zipIdx 0) name = some idx := by rw [← hinv.enum]; exact hf
-    obtain ⟨_, hlt, hget⟩ := find_zipIdx (names st) 0 name idx hf'
-    have hmem : name ∈ names st := List.mem_of_getElem? hget
-    refine ⟨?_, idx, rfl, ?_, ?_, hmem⟩
-    · rw [← h]
-      simp only
-      have := remap_zipIdx (names st) hinv.nodup 0 name idx hf'
-      rw [← hinv.enum] at this
-      exact this
-    · rw [← h]
-    · have : st.dico.length = (names st).length := by simp [names]
-      omega
+/-! ### lookup in the abstraction -/
 
-/-- C01: the invariant survives deletion -/
-theorem inv_remove (st st' : St V) (name : String) (hinv : Inv st) (h : remove st name = .ok st') : Inv st' := by
-  obtain ⟨hd, idx, hf, hr, hlt, hmem⟩ := names_remove st st' name hinv h
-  have hn : names st' = (names st).erase name := by
-    unfold names at *; rw [hd]; simp [List.zipIdx_map_fst]
-  refine ⟨by rw [hn]; exact hd, by rw [hn]; exact hinv.nodup.erase _, ?_⟩
-  intro r hr'
-  rw [hr] at hr'
-  obtain ⟨r0, hr0, rfl⟩ := List.mem_map.mp hr'
-  have hl0 := hinv.rows r0 hr0
-  have hlen : st'.dico.length = st.dico.length - 1 := by
-    rw [hd]; simp only [List.length_zipIdx]
-    rw [List.length_erase_of_mem hmem]; simp [names]
-  rw [List.length_eraseIdx, hlen]
+theorem lookup_map (d : List (String × Nat)) (g : Nat → List V) (name : String) :
+    lookup (d.map (fun p => (p.1, g p.2))) name = (find d name).map g := by
+  induction d with
+  | nil => rfl
+  | cons p t ih =>
+    unfold lookup find at ih ⊢
+    simp only [List.map_cons, List.find?_cons]
+    by_cases h : (p.1 == name) = true
+    · simp [h]
+    · simp only [h]; exact ih
+
+/-! ### what alignment says about the dict -/
+section inv
+variable {n : Nat} {st : St V}
+
+theorem Inv.mem_iff (h : Inv n st) {p : String × Nat} : p ∈ st.dico ↔ (names st)[p.2]? = some p.1 := by
+  rw [h.enum]
+  have : (names ({ st with dico := (names st).zipIdx 0 } : St V)) = names st := by
+    simp [names, List.zipIdx_map_fst]
+  exact List.mem_zipIdx_iff_getElem?
+
+theorem Inv.dico_length (_h : Inv n st) : st.dico.length = (names st).length := by simp [names]
+
+theorem Inv.idx_lt (h : Inv n st) {p : String × Nat} (hp : p ∈ st.dico) : p.2 < st.dico.length := by
+  have := h.mem_iff.mp hp
+  rw [h.dico_length]
+  exact (List.getElem?_eq_some_iff.mp this).1
+
+theorem Inv.find_some (h : Inv n st) {name : String} {idx : Nat} (hf : find st.dico name = some idx) :
+    idx < st.dico.length ∧ (names st)[idx]? = some name := by
+  have hf' : find ((names st).zipIdx 0) name = some idx := by rw [← h.enum]; exact hf
+  obtain ⟨_, hlt, hget⟩ := find_zipIdx (names st) 0 name idx hf'
+  rw [h.dico_length]
+  exact ⟨by omega, by simpa using hget⟩
+
+theorem Inv.find_none (h : Inv n st) {name : String} (hf : find st.dico name = none) : name ∉ names st := by
+  have hf' : find ((names st).zipIdx 0) name = none := by rw [← h.enum]; exact hf
+  exact find_zipIdx_none _ 0 _ hf'
+
+theorem Inv.idx_of_name (h : Inv n st) {name : String} {idx : Nat} (hf : find st.dico name = some idx)
+    {p : String × Nat} (hp : p ∈ st.dico) (hn : (p.1 == name) = true) : p.2 = idx := by
+  have hp' := h.mem_iff.mp hp
+  obtain ⟨hlt, hget⟩ := h.find_some hf
+  have e : p.1 = name := by simpa using hn
+  rw [e, ← hget] at hp'
+  have hl : p.2 < (names st).length := by rw [← h.dico_length]; exact h.idx_lt hp
+  exact (List.getElem?_inj hl h.nodup).mp hp'
+
+theorem Inv.idx_ne (h : Inv n st) {name : String} {idx : Nat} (hf : find st.dico name = some idx)
+    {p : String × Nat} (hp : p ∈ st.dico) (hn : (p.1 == name) = false) : p.2 ≠ idx := by
+  intro e
+  have hp' := h.mem_iff.mp hp
+  obtain ⟨_, hget⟩ := h.find_some hf
+  rw [e, hget] at hp'
+  have : name = p.1 := Option.some.inj hp'
+  rw [this] at hn
+  simp at hn
+
+theorem Inv.row_lt (h : Inv n st) {p : String × Nat} (hp : p ∈ st.dico) : ∀ r ∈ st.rows, p.2 < r.length := by
+  intro r hr
+  rw [h.rows r hr]
+  exact h.idx_lt hp
+
+end inv
+
+/-! ### columns under the row edits -/
+
+theorem colAt_length (rows : List (List V)) (i : Nat) : (colAt rows i).length = rows.length := by
+  simp [colAt]
+
+theorem colAt_map_append_old (rows : List (List V)) (v : V) (i : Nat) (h : ∀ r ∈ rows, i < r.length) :
+    colAt (rows.map (· ++ [v])) i = colAt rows i := by
+  unfold colAt
+  rw [List.map_map]
+  apply List.map_congr_left
+  intro r hr
+  have := h r hr
+  simp [List.getD_eq_getElem?_getD, List.getElem?_append_left this]
+
+theorem colAt_map_append_new (rows : List (List V)) (v : V) (k : Nat) (h : ∀ r ∈ rows, r.length = k) :
+    colAt (rows.map (· ++ [v])) k = List.replicate rows.length v := by
+  unfold colAt
+  rw [List.map_map]
+  apply List.ext_getElem?
+  intro j
+  simp only [List.getElem?_map, List.getElem?_replicate]
+  by_cases hj : j < rows.length
+  · have hr : rows[j] ∈ rows := List.getElem_mem hj
+    have hk := h _ hr
+    simp [hj, List.getD_eq_getElem?_getD, ← hk]
+  · simp [hj, List.getElem?_eq_none (Nat.le_of_not_lt hj)]
+
+theorem appendCol_length (rows : List (List V)) (l : List V) : (appendCol rows l).length = rows.length := by
+  induction rows generalizing l with
+  | nil => cases l <;> simp [appendCol]
+  | cons r rs ih => cases l <;> simp [appendCol, ih]
+
+theorem appendCol_rows (rows : List (List V)) (l : List V) (k : Nat) (h : ∀ r ∈ rows, r.length = k)
+    (hl : rows.length ≤ l.length) : ∀ r ∈ appendCol rows l, r.length = k + 1 := by
+  induction rows generalizing l with
+  | nil => cases l <;> simp [appendCol]
+  | cons r rs ih =>
+    cases l with
+    | nil => simp at hl
+    | cons v vs =>
+      simp only [appendCol, List.mem_cons]
+      intro r' hr'
+      rcases hr' with rfl | hr'
+      · simp [h r (by simp)]
+      · exact ih vs (fun x hx => h x (by simp [hx])) (by simpa using hl) r' hr'
+
+theorem colAt_appendCol_old (rows : List (List V)) (l : List V) (i : Nat) (h : ∀ r ∈ rows, i < r.length) :
+    colAt (appendCol rows l) i = colAt rows i := by
+  induction rows generalizing l with
+  | nil => cases l <;> simp [appendCol, colAt]
+  | cons r rs ih =>
+    cases l with
+    | nil => simp [appendCol]
+    | cons v vs =>
+      have h1 := h r (by simp)
+      have := ih vs (fun x hx => h x (by simp [hx]))
+      simp only [colAt, appendCol, List.map_cons] at this ⊢
+      rw [this]
+      simp [List.getD_eq_getElem?_getD, List.getElem?_append_left h1]
+
+theorem colAt_appendCol_new (rows : List (List V)) (l : List V) (k : Nat) (h : ∀ r ∈ rows, r.length = k)
+    (hl : rows.length ≤ l.length) : colAt (appendCol rows l) k = l.take rows.length := by
+  induction rows generalizing l with
+  | nil => cases l <;> simp [appendCol, colAt]
+  | cons r rs ih =>
+    cases l with
+    | nil => simp at hl
+    | cons v vs =>
+      have h1 := h r (by simp)
+      have := ih vs (fun x hx => h x (by simp [hx])) (by simpa using hl)
+      simp only [colAt, appendCol, List.map_cons, List.length_cons, List.take_succ_cons] at this ⊢
+      rw [this]
+      simp [List.getD_eq_getElem?_getD, ← h1]
+
+theorem colAt_map_set_same (rows : List (List V)) (idx : Nat) (v : V) (h : ∀ r ∈ rows, idx < r.length) :
+    colAt (rows.map (·.set idx v)) idx = List.replicate rows.length v := by
+  unfold colAt
+  rw [List.map_map]
+  apply List.ext_getElem?
+  intro j
+  simp only [List.getElem?_map, List.getElem?_replicate]
+  by_cases hj : j < rows.length
+  · have hr : rows[j] ∈ rows := List.getElem_mem hj
+    have hk := h _ hr
+    simp [hj, List.getD_eq_getElem?_getD, hk]
+  · simp [hj, List.getElem?_eq_none (Nat.le_of_not_lt hj)]
+
+theorem colAt_map_set_other (rows : List (List V)) (idx j : Nat) (v : V) (hne : j ≠ idx) :
+    colAt (rows.map (·.set idx v)) j = colAt rows j := by
+  unfold colAt
+  rw [List.map_map]
+  apply List.map_congr_left
+  intro r _
+  simp [List.getD_eq_getElem?_getD, List.getElem?_set, Ne.symm hne]
+
+theorem writeCol_length (idx : Nat) (rows : List (List V)) (l : List V) : (writeCol idx rows l).length = rows.length := by
+  induction rows generalizing l with
+  | nil => cases l <;> simp [writeCol]
+  | cons r rs ih => cases l <;> simp [writeCol, ih]
+
+theorem writeCol_rows (idx : Nat) (rows : List (List V)) (l : List V) (k : Nat) (h : ∀ r ∈ rows, r.length = k) :
+    ∀ r ∈ writeCol idx rows l, r.length = k := by
+  induction rows generalizing l with
+  | nil => cases l <;> simp [writeCol]
+  | cons r rs ih =>
+    cases l with
+    | nil => simpa [writeCol] using h
+    | cons v vs =>
+      simp only [writeCol, List.mem_cons]
+      intro r' hr'
+      rcases hr' with rfl | hr'
+      · simp [h r (by simp)]
+      · exact ih vs (fun x hx => h x (by simp [hx])) r' hr'
+
+theorem colAt_writeCol_other (rows : List (List V)) (l : List V) (idx j : Nat) (hne : j ≠ idx) :
+    colAt (writeCol idx rows l) j = colAt rows j := by
+  induction rows generalizing l with
+  | nil => cases l <;> simp [writeCol, colAt]
+  | cons r rs ih =>
+    cases l with
+    | nil => simp [writeCol]
+    | cons v vs =>
+      have := ih vs
+      simp only [colAt, writeCol, List.map_cons] at this ⊢
+      rw [this]
+      simp [List.getD_eq_getElem?_getD, List.getElem?_set, Ne.symm hne]
+
+theorem colAt_writeCol_same (rows : List (List V)) (l : List V) (idx : Nat) (h : ∀ r ∈ rows, idx < r.length) :
+    colAt (writeCol idx rows l) idx = overwrite l (colAt rows idx) := by
+  induction rows generalizing l with
+  | nil => cases l <;> simp [writeCol, colAt, overwrite]
+  | cons r rs ih =>
+    cases l with
+    | nil => simp [writeCol, overwrite]
+    | cons v vs =>
+      have h1 := h r (by simp)
+      have := ih vs (fun x hx => h x (by simp [hx]))
+      simp only [colAt, writeCol, List.map_cons, overwrite, List.length_cons, List.take_succ_cons,
+        List.drop_succ_cons, List.cons_append, List.length_map] at this ⊢
+      rw [this]
+      simp [List.getD_eq_getElem?_getD, h1]
+
+theorem colAt_set_same (rows : List (List V)) (i : Nat) (r : List V) (idx : Nat) (v : V)
+    (h : idx < r.length) : colAt (rows.set i (r.set idx v)) idx = (colAt rows idx).set i v := by
+  unfold colAt
+  rw [List.map_set]
+  simp [List.getD_eq_getElem?_getD, h]
+
+theorem colAt_set_other (rows : List (List V)) (i : Nat) (r : List V) (idx j : Nat) (v : V)
+    (hr : rows[i]? = some r) (hne : j ≠ idx) : colAt (rows.set i (r.set idx v)) j = colAt rows j := by
+  unfold colAt
+  rw [List.map_set]
+  apply List.ext_getElem?
+  intro k
+  rw [List.getElem?_set]
+  by_cases hk : i = k
+  · subst hk
+    simp [List.getD_eq_getElem?_getD, List.getElem?_set, Ne.symm hne, hr]
+    exact (List.getElem?_eq_some_iff.mp hr).1
+  · simp [hk]
+
+theorem colAt_eraseIdx (rows : List (List V)) (idx j : Nat) (hne : j ≠ idx) :
+    colAt (rows.map (·.eraseIdx idx)) (if j > idx then j - 1 else j) = colAt rows j := by
+  unfold colAt
+  rw [List.map_map]
+  apply List.map_congr_left
+  intro r _
+  simp only [Function.comp, List.getD_eq_getElem?_getD, List.getElem?_eraseIdx]
+  by_cases hgt : j > idx
+  · have h1 : ¬ (j - 1 < idx) := by omega
+    have h2 : j - 1 + 1 = j := by omega
+    simp [hgt, h1, h2]
+  · have h1 : j < idx := by omega
+    simp [hgt, h1]
+
+theorem mapM_getElem (rows : List (List V)) (idx : Nat) (h : ∀ r ∈ rows, idx < r.length) :
+    rows.mapM (fun r => r[idx]?) = some (colAt rows idx) := by
+  induction rows with
+  | nil => simp [colAt]
+  | cons r rs ih =>
+    have h1 := h r (by simp)
+    have := ih (fun x hx => h x (by simp [hx]))
+    simp only [List.mapM_cons, this, colAt, List.map_cons]
+    simp [List.getD_eq_getElem?_getD, h1]
+
+/-! ### the primitives: concrete and specification tables simulate each other -/
+section prims
+variable {n : Nat}
+
+/-- closes a `Sim` goal whose state is unchanged (possibly after `simp` has already closed parts of it) -/
+macro "sim_done " h:term : tactic => `(tactic| first
+  | exact ⟨$h, rfl, fun _ _ => trivial⟩
+  | exact ⟨$h, trivial, trivial⟩
+  | exact ⟨$h, rfl, trivial⟩
+  | exact ⟨$h, trivial, fun _ _ => trivial⟩
+  | exact ⟨$h, rfl, fun x hx => by cases hx⟩
+  | exact ⟨$h, trivial, fun x hx => by cases hx⟩)
+
+theorem abs_lookup (st : St V) (name : String) :
+    lookup (abs st).cols name = (find st.dico name).map (colAt st.rows) := lookup_map _ _ _
+
+theorem hasA_abs (st : St V) (name : String) : hasA (abs st) name = hasC st name := by
+  simp [hasA, hasC, abs_lookup]
+
+theorem abs_size {st : St V} (h : Inv n st) : (abs st).size = n := by simp [ATab.size, abs, h.xs]
+
+theorem abs_coord (st : St V) (c : Coord) : (abs st).coord c = st.coord c := by
+  cases c <;> rfl
+
+theorem coord_length {st : St V} (h : Inv n st) (c : Coord) : (st.coord c).length = n := by
+  cases c <;> simp [St.coord, h.xs, h.ys, h.zs, h.ts]
+
+theorem sim_size : Sim n (fun k => k = n) (tblSt.size : M (St V) Nat) (tblATab.size : M (ATab V) Nat) := by
+  intro st h
+  refine ⟨h, ?_, ?_⟩
+  · show (Except.ok (abs st).size, abs st) = (Except.ok st.rows.length, abs st)
+    rw [abs_size h, h.size]
+  · intro x hx
+    have : (Except.ok st.rows.length : Except Err Nat) = Except.ok x := hx
+    cases this; exact h.size
+
+theorem sim_has (name : String) :
+    Sim n (fun _ => True) (tblSt.has name : M (St V) Bool) (tblATab.has name : M (ATab V) Bool) := by
+  intro st h
+  refine ⟨h, ?_, fun _ _ => trivial⟩
+  show (Except.ok (hasA (abs st) name), abs st) = (Except.ok (hasC st name), abs st)
+  rw [hasA_abs]
+
+theorem sim_names :
+    Sim n (fun _ => True) (tblSt.names : M (St V) (List String)) (tblATab.names : M (ATab V) (List String)) := by
+  intro st h
+  refine ⟨h, ?_, fun _ _ => trivial⟩
+  show (Except.ok ((abs st).cols.map Prod.fst), abs st) = (Except.ok (st.dico.map Prod.fst), abs st)
+  simp [abs]
+
+theorem sim_get (o : Ops V) (name : String) :
+    Sim n (fun l => l.length = n) (getC o name) (getA o name) := by
+  intro st h
+  unfold getC getA
+  cases hc : coord? name with
+  | some c =>
+    simp only [abs_coord]
+    exact ⟨h, by first | trivial | rfl, fun x hx => by cases hx; exact coord_length h c⟩
+  | none =>
+    simp only
+    by_cases h1 : (name == "timestamp") = true
+    · simp only [h1, if_true]
+      sim_done h
+    · simp only [h1, if_false]
+      by_cases h2 : (name == "idx") = true
+      · simp only [h2, if_true, abs_size h, h.size]
+        exact ⟨h, by first | trivial | rfl, fun x hx => by cases hx; simp⟩
+      · simp only [h2, if_false, abs_lookup]
+        cases hf : find st.dico name with
+        | none => sim_done h
+        | some idx =>
+          have hlt := (h.find_some hf).1
+          have hrow : ∀ r ∈ st.rows, idx < r.length := fun r hr => by rw [h.rows r hr]; exact hlt
+          simp only [Option.map_some, mapM_getElem st.rows idx hrow]
+          exact ⟨h, by first | trivial | rfl, fun x hx => by cases hx; rw [colAt_length, h.size]⟩
+
+theorem sim_getObs (o : Ops V) (name : String) (i : Nat) :
+    Sim n (fun _ => True) (getObsC o name i) (getObsA o name i) := by
+  intro st h
+  unfold getObsC getObsA
+  cases hc : coord? name with
+  | some c =>
+    simp only [abs_coord]
+    cases (st.coord c)[i]? <;> sim_done h
+  | none =>
+    simp only
+    by_cases h1 : (name == "timestamp") = true
+    · simp only [h1, if_true]
+      sim_done h
+    · simp only [h1, if_false]
+      by_cases h2 : (name == "idx") = true
+      · simp only [h2, if_true]
+        sim_done h
+      · simp only [h2, if_false, abs_lookup]
+        cases hf : find st.dico name with
+        | none => sim_done h
+        | some idx =>
+          have hlt := (h.find_some hf).1
+          simp only [Option.map_some, colAt, List.getElem?_map]
+          cases hr : st.rows[i]? with
+          | none => sim_done h
+          | some r =>
+            have hmem : r ∈ st.rows := List.mem_of_getElem? hr
+            have hl : idx < r.length := by rw [h.rows r hmem]; exact hlt
+            simp only [Option.map_some, List.getD_eq_getElem?_getD, List.getElem?_eq_getElem hl, Option.getD_some]
+            sim_done h
+
+/-- alignment after registering a new name with one more value in every row -/
+theorem inv_create {st : St V} (h : Inv n st) {name : String} (hf : find st.dico name = none)
+    (rows' : List (List V)) (hlen : rows'.length = st.rows.length)
+    (hrows : ∀ r ∈ rows', r.length = st.dico.length + 1) :
+    Inv n { st with dico := st.dico ++ [(name, st.dico.length)], rows := rows' } := by
+  have hn : names ({ st with dico := st.dico ++ [(name, st.dico.length)], rows := rows' } : St V) = names st ++ [name] := by
+    simp [names]
+  refine ⟨?_, ?_, ?_, ?_, h.xs, h.ys, h.zs, h.ts⟩
+  · rw [hn, List.zipIdx_append]
+    simp only [List.zipIdx_cons, List.zipIdx_nil, Nat.zero_add]
+    rw [← h.enum, ← h.dico_length]
+  · rw [hn]
+    have := h.find_none hf
+    exact List.nodup_append.mpr ⟨h.nodup, by simp, by
+      intro a ha b hb
+      simp at hb
+      subst hb
+      intro e; subst e; exact this ha⟩
+  · intro r hr
+    simp only [List.length_append, List.length_cons, List.length_nil]
+    exact hrows r hr
+  · simp only; rw [hlen]; exact h.size
+
+theorem abs_create {st : St V} {name : String} (rows' : List (List V)) (c : List V)
+    (hold : ∀ p ∈ st.dico, colAt rows' p.2 = colAt st.rows p.2) (hnew : colAt rows' st.dico.length = c) :
+    abs ({ st with dico := st.dico ++ [(name, st.dico.length)], rows := rows' } : St V)
+      = { abs st with cols := (abs st).cols ++ [(name, c)] } := by
+  simp only [abs, List.map_append, List.map_cons, List.map_nil, hnew]
+  congr 1
+  congr 1
+  apply List.map_congr_left
+  intro p hp
+  rw [hold p hp]
+
+/-- createAnalyticalFeature; a list initialiser must cover the track -/
+theorem sim_create (name : String) (init : Init V)
+    (hok : match init with | .scalar _ => True | .list l => n ≤ l.length) :
+    Sim n (fun _ => True) (createC name init) (createA name init) := by
+  intro st h
+  unfold createC createA
+  by_cases h1 : reserved name = true
+  · simp only [h1, if_true]; sim_done h
+  · simp only [h1, if_false, abs_size h, hasA_abs]
+    have he : st.rows.isEmpty = (n == 0) := by
+      rw [← h.size]; cases st.rows <;> simp
+    rw [he]
+    by_cases h2 : (n == 0) = true
+    · simp only [h2, if_true]; sim_done h
+    · simp only [h2, if_false]
+      by_cases h3 : hasC st name = true
+      · simp only [h3, if_true]; sim_done h
+      · simp only [h3, if_false, Bool.false_eq_true]
+        have hf : find st.dico name = none := by
+          cases hfd : find st.dico name with
+          | none => rfl
+          | some i => simp [hasC, hfd] at h3
+        have hlt : ∀ p ∈ st.dico, ∀ r ∈ st.rows, p.2 < r.length := fun p hp => h.row_lt hp
+        cases init with
+        | scalar v =>
+          simp only
+          refine ⟨inv_create h hf _ (by simp) ?_, ?_, fun _ _ => trivial⟩
+          · intro r hr
+            obtain ⟨r0, hr0, rfl⟩ := List.mem_map.mp hr
+            simp [h.rows r0 hr0]
+          · rw [abs_create (st := st) (name := name) _ (List.replicate n v)
+              (fun p hp => colAt_map_append_old _ _ _ (hlt p hp))
+              (by rw [colAt_map_append_new _ _ _ h.rows, h.size])]
+        | list l =>
+          simp only at hok ⊢
+          have hl : ¬ (l.length < n) := by omega
+          have hl' : ¬ (l.length < st.rows.length) := by rw [h.size]; exact hl
+          simp only [hl, hl', if_false]
+          refine ⟨inv_create h hf _ (appendCol_length _ _) ?_, ?_, fun _ _ => trivial⟩
+          · exact appendCol_rows _ _ _ h.rows (by rw [h.size]; omega)
+          · rw [abs_create (st := st) (name := name) _ (l.take n)
+              (fun p hp => colAt_appendCol_old _ _ _ (hlt p hp))
+              (by rw [colAt_appendCol_new _ _ _ h.rows (by rw [h.size]; omega), h.size])]
+
+/-- alignment after an edit of the rows that keeps their number and their lengths -/
+theorem inv_rows {st : St V} (h : Inv n st) (rows' : List (List V)) (hlen : rows'.length = st.rows.length)
+    (hrows : ∀ r ∈ rows', r.length = st.dico.length) : Inv n { st with rows := rows' } :=
+  ⟨h.enum, h.nodup, hrows, by simp only; rw [hlen]; exact h.size, h.xs, h.ys, h.zs, h.ts⟩
+
+theorem abs_replace {st : St V} (h : Inv n st) {name : String} {idx : Nat} (hf : find st.dico name = some idx)
+    (rows' : List (List V)) (c : List V) (hsame : colAt rows' idx = c)
+    (hother : ∀ j, j ≠ idx → colAt rows' j = colAt st.rows j) :
+    abs ({ st with rows := rows' } : St V) = { abs st with cols := replaceCol (abs st).cols name c } := by
+  simp only [abs, replaceCol, List.map_map]
+  congr 1
+  apply List.map_congr_left
+  intro p hp
+  simp only [Function.comp]
+  cases hn : (p.1 == name) with
+  | true => simp only [if_true]; rw [h.idx_of_name hf hp hn, hsame]
+  | false => simp only [Bool.false_eq_true, if_false]; rw [hother _ (h.idx_ne hf hp hn)]
+
+theorem isEmpty_rows {st : St V} (h : Inv n st) : st.rows.isEmpty = (n == 0) := by
+  rw [← h.size]; cases st.rows <;> simp
+
+/-- updateAnalyticalFeature (a short list is a partial overwrite on both sides) -/
+theorem sim_update (name : String) (init : Init V) :
+    Sim n (fun _ => True) (updateC name init) (updateA name init) := by
+  intro st h
+  unfold updateC updateA
+  simp only [hasA_abs, abs_size h, isEmpty_rows h, abs_lookup]
+  cases h1 : hasC st name with
+  | false => simp only [Bool.not_false, if_true]; sim_done h
+  | true =>
+    simp only [Bool.not_true, Bool.false_eq_true, if_false]
+    cases h2 : (n == 0) with
+    | true => simp only [if_true]; sim_done h
+    | false =>
+      simp only [Bool.false_eq_true, if_false]
+      cases hf : find st.dico name with
+      | none => simp only [Option.map_none]; sim_done h
+      | some idx =>
+        have hlt := (h.find_some hf).1
+        have hrow : ∀ r ∈ st.rows, idx < r.length := fun r hr => by rw [h.rows r hr]; exact hlt
+        simp only [Option.map_some]
+        cases init with
+        | scalar v =>
+          simp only
+          refine ⟨inv_rows h _ (by simp) ?_, ?_, fun _ _ => trivial⟩
+          · intro r hr
+            obtain ⟨r0, hr0, rfl⟩ := List.mem_map.mp hr
+            simp [h.rows r0 hr0]
+          · rw [abs_replace h hf _ (List.replicate (colAt st.rows idx).length v)
+              (by rw [colAt_map_set_same _ _ _ hrow, colAt_length])
+              (fun j hj => colAt_map_set_other _ _ _ _ hj)]
+        | list l =>
+          simp only [h.size]
+          refine ⟨inv_rows h _ (writeCol_length _ _ _) (writeCol_rows _ _ _ _ h.rows), ?_, fun _ _ => trivial⟩
+          rw [abs_replace h hf _ (overwrite l (colAt st.rows idx))
+              (colAt_writeCol_same _ _ _ hrow)
+              (fun j hj => colAt_writeCol_other _ _ _ _ hj)]
+
+theorem abs_setCoord (st : St V) (c : Coord) (l : List V) : abs (st.setCoord c l) = (abs st).setCoord c l := by
+  cases c <;> rfl
+
+theorem inv_setCoord {st : St V} (h : Inv n st) (c : Coord) (l : List V) (hl : l.length = n) :
+    Inv n (st.setCoord c l) := by
+  cases c
+  · exact ⟨h.enum, h.nodup, h.rows, h.size, hl, h.ys, h.zs, h.ts⟩
+  · exact ⟨h.enum, h.nodup, h.rows, h.size, h.xs, hl, h.zs, h.ts⟩
+  · exact ⟨h.enum, h.nodup, h.rows, h.size, h.xs, h.ys, hl, h.ts⟩
+  · exact ⟨h.enum, h.nodup, h.rows, h.size, h.xs, h.ys, h.zs, hl⟩
+
+/-- setObsAnalyticalFeature -/
+theorem sim_setObs (name : String) (i : Nat) (v : V) :
+    Sim n (fun _ => True) (setObsC name i v) (setObsA name i v) := by
+  intro st h
+  unfold setObsC setObsA
+  cases h1 : (name == "x" || name == "y" || name == "z") with
+  | true =>
+    simp only [if_true]
+    cases hc : coord? name with
+    | none => simp only; sim_done h
+    | some c =>
+      simp only [abs_coord]
+      by_cases hi : i < (st.coord c).length
+      · simp only [hi, if_true]
+        exact ⟨inv_setCoord h c _ (by rw [List.length_set]; exact coord_length h c),
+          by rw [abs_setCoord], fun _ _ => trivial⟩
+      · simp only [hi, if_false]; sim_done h
+  | false =>
+    simp only [Bool.false_eq_true, if_false, abs_lookup]
+    cases hf : find st.dico name with
+    | none => simp only [Option.map_none]; sim_done h
+    | some idx =>
+      have hlt := (h.find_some hf).1
+      simp only [Option.map_some, colAt_length]
+      cases hr : st.rows[i]? with
+      | none =>
+        have : ¬ i < st.rows.length := by
+          intro hlt'; rw [List.getElem?_eq_getElem hlt'] at hr; cases hr
+        simp only [this, if_false]; sim_done h
+      | some r =>
+        have hi : i < st.rows.length := (List.getElem?_eq_some_iff.mp hr).1
+        have hmem : r ∈ st.rows := List.mem_of_getElem? hr
+        have hl : idx < r.length := by rw [h.rows r hmem]; exact hlt
+        simp only [hi, hl, if_true]
+        refine ⟨inv_rows h _ (by simp) ?_, ?_, fun _ _ => trivial⟩
+        · intro r' hr'
+          rcases List.mem_or_eq_of_mem_set hr' with h' | h'
+          · exact h.rows r' h'
+          · rw [h', List.length_set]; exact h.rows r hmem
+        · rw [abs_replace h hf _ ((colAt st.rows idx).set i v)
+            (colAt_set_same _ _ _ _ _ hl)
+            (fun j hj => colAt_set_other _ _ _ _ _ _ hr hj)]
+
+/-- alignment survives deletion: the remap of `removeAnalyticalFeature` re-enumerates the remaining names -/
+theorem inv_remove {st : St V} (h : Inv n st) {name : String} {idx : Nat} (hf : find st.dico name = some idx) :
+    Inv n { st with
+      dico := (st.dico.filter (fun p => !(p.1 == name))).map (fun p => (p.1, if p.2 > idx then p.2 - 1 else p.2)),
+      rows := st.rows.map (·.eraseIdx idx) } := by
+  have hf' : find ((names st).zipIdx 0) name = some idx := by rw [← h.enum]; exact hf
+  obtain ⟨hlt, hget⟩ := h.find_some hf
+  have hmem : name ∈ names st := List.mem_of_getElem? hget
+  have hd : (st.dico.filter (fun p => !(p.1 == name))).map (fun p => (p.1, if p.2 > idx then p.2 - 1 else p.2))
+      = ((names st).erase name).zipIdx 0 := by
+    have := remap_zipIdx (names st) h.nodup 0 name idx hf'
+    rw [← h.enum] at this
+    exact this
+  have hn : names ({ st with
+      dico := (st.dico.filter (fun p => !(p.1 == name))).map (fun p => (p.1, if p.2 > idx then p.2 - 1 else p.2)),
+      rows := st.rows.map (·.eraseIdx idx) } : St V) = (names st).erase name := by
+    show List.map Prod.fst _ = _
+    rw [hd]; simp [List.zipIdx_map_fst]
+  refine ⟨by rw [hn]; exact hd, by rw [hn]; exact h.nodup.erase _, ?_, by simp [h.size], h.xs, h.ys, h.zs, h.ts⟩
+  intro r hr
+  obtain ⟨r0, hr0, rfl⟩ := List.mem_map.mp hr
+  have hl0 := h.rows r0 hr0
+  simp only
+  rw [hd, List.length_zipIdx, List.length_erase_of_mem hmem, List.length_eraseIdx, ← h.dico_length]
   have : idx < r0.length := by omega
   simp [this]; omega
 
-/-- C01: deleting a feature never alters what is read under the remaining names -/
-theorem read_remove (st st' : St V) (name n : String) (hinv : Inv st) (h : remove st name = .ok st')
-    (hne : n ≠ name) : read st' n = read st n := by
-  unfold remove at h
-  cases hf : find st.dico name with
-  | none => rw [hf] at h; cases h
-  | some idx =>
-    rw [hf] at h
-    simp only [Except.ok.injEq] at h
-    subst h
-    unfold read
-    simp only
-    rw [find_remap st.dico name n hne (fun i => if i > idx then i - 1 else i)]
-    cases hn : find st.dico n with
-    | none => rfl
-    | some i =>
-      simp only [Option.map_some, Option.some.injEq, List.map_map]
-      -- i ≠ idx because names are distinct
-      have hi : find ((names st).zipIdx 0) n = some i := by rw [← hinv.enum]; exact hn
-      have hx : find ((names st).zipIdx 0) name = some idx := by rw [← hinv.enum]; exact hf
-      obtain ⟨_, hil, hig⟩ := find_zipIdx _ 0 n i hi
-      obtain ⟨_, hxl, hxg⟩ := find_zipIdx _ 0 name idx hx
-      have hneq : i ≠ idx := by
-        intro e; subst e
-        rw [hig] at hxg; exact hne (Option.some.inj hxg)
+/-- removeAnalyticalFeature -/
+theorem sim_remove (name : String) : Sim n (fun _ => True) (removeC (V := V) name) (removeA name) := by
+  intro st h
+  unfold removeC removeA
+  simp only [hasA_abs, abs_lookup]
+  cases h1 : hasC st name with
+  | false => simp only [Bool.not_false, if_true]; sim_done h
+  | true =>
+    simp only [Bool.not_true, Bool.false_eq_true, if_false]
+    cases hf : find st.dico name with
+    | none => simp only [Option.map_none]; sim_done h
+    | some idx =>
+      simp only [Option.map_some]
+      refine ⟨inv_remove h hf, ?_, fun _ _ => trivial⟩
+      simp only [abs, List.filter_map, List.map_map]
+      congr 2
       apply List.map_congr_left
-      intro r _
-      simp only [Function.comp, List.getElem?_eraseIdx]
-      by_cases hgt : i > idx
-      · have h1 : ¬ (i - 1 < idx) := by omega
-        have h2 : i - 1 + 1 = i := by omega
-        simp [hgt, h1, h2]
-      · have h1 : i < idx := by omega
-        simp [hgt, h1]
+      intro p hp
+      obtain ⟨hp1, hp2⟩ := List.mem_filter.mp hp
+      have hn : (p.1 == name) = false := by simpa using hp2
+      simp only [Function.comp]
+      rw [colAt_eraseIdx _ _ _ (h.idx_ne hf hp1 hn)]
+
+end prims
 end TV.Features
